@@ -382,7 +382,7 @@ func C08(c *ev.Ctx) {
 	c.Cov.Evaluations = evals
 	c.Cov.DistinctNontrivial = nt
 	c.Cov.Exhaustive = true
-	c.Cov.Rule = "Identity.tla case families x both hash algorithms: (hash) 5 spellings (canonical, members reordered, whitespace, escapes, number spellings) x 5 alteration classes expanded to every member / every byte position of a model with escapes, numbers and nesting; (validate) 7 ways the presented multihash was made (own/other algorithm, other value, digest relabelled, truncated, garbage, empty) x spellings; (commit) 5 key types x nonce: commitment = hash of decoded reveal value, both recomputed independently (sha256/sha512 + hand-encoded multihash); (longform) 13 initial-state classes (canonical, reordered, whitespace, every suffix-data / delta member altered, added member, bad / padded base64, trailing bits, every byte position changed, empty, non-JSON) x suffix match / other, resolved by the real DocumentHandler over an empty store."
+	c.Cov.Rule = "Identity.tla case families x both hash algorithms: (hash) 5 spellings (canonical, members reordered, whitespace, escapes, number spellings) x 5 alteration classes expanded to every member / every byte position of a model with escapes, numbers and nesting; (validate) 7 ways the presented multihash was made (own/other algorithm, other value, digest relabelled, truncated, garbage, empty) x spellings; (commit) 5 key types x nonce: commitment = hash of decoded reveal value, both recomputed independently (sha256/sha512 + hand-encoded multihash); (longform) 13 initial-state classes (canonical, reordered, whitespace, every suffix-data / delta member altered, added member, bad / padded base64, trailing bits, every byte position changed, empty, non-JSON) x suffix (match, other hash, leading / trailing characters dropped, characters added), resolved by the real DocumentHandler over an empty store."
 	c.Finish("model_checking")
 }
 
@@ -421,8 +421,16 @@ func longFormVariant(c *ev.Ctx, cs *idCase, viol func(string, interface{}), pad 
 	delta := m["delta"].(map[string]interface{})
 	sdCanon, _ := canonicalizer.MarshalCanonical(sd)
 	suffix := rawMultihash(byte(alg), digestOf(alg, sdCanon))
-	if cs.C.Suffix == "other" {
-		suffix = rawMultihash(byte(alg), digestOf(alg, []byte("another suffix data")))
+	suffixes := []string{suffix}
+	switch cs.C.Suffix {
+	case "other":
+		suffixes = []string{rawMultihash(byte(alg), digestOf(alg, []byte("another suffix data")))}
+	case "tail":
+		suffixes = []string{suffix[1:], suffix[2:], suffix[len(suffix)/2:], suffix[len(suffix)-1:]}
+	case "head":
+		suffixes = []string{suffix[:len(suffix)-1], suffix[:len(suffix)/2], suffix[:1]}
+	case "extended":
+		suffixes = []string{suffix + "A", "A" + suffix, suffix + suffix}
 	}
 	initial := map[string]interface{}{"delta": delta, "suffixData": sd}
 	canon := func(v interface{}) []byte { b, _ := canonicalizer.MarshalCanonical(v); return b }
@@ -501,23 +509,25 @@ func longFormVariant(c *ev.Ctx, cs *idCase, viol func(string, interface{}), pad 
 	dh := newResolver(alg)
 	var n int64
 	for _, seg := range segs {
-		did := "did:sidetree:" + suffix + ":" + seg
-		var rerr error
-		func() {
-			defer func() {
-				if r := recover(); r != nil {
-					rerr = fmt.Errorf("PANIC: %v", r)
-					viol("resolve-panics:"+cs.C.Segment, map[string]string{"did": did, "panic": fmt.Sprint(r)})
-				}
+		for _, suffix := range suffixes {
+			did := "did:sidetree:" + suffix + ":" + seg
+			var rerr error
+			func() {
+				defer func() {
+					if r := recover(); r != nil {
+						rerr = fmt.Errorf("PANIC: %v", r)
+						viol("resolve-panics:"+cs.C.Segment, map[string]string{"did": did, "panic": fmt.Sprint(r)})
+					}
+				}()
+				_, rerr = dh.ResolveDocument(did)
 			}()
-			_, rerr = dh.ResolveDocument(did)
-		}()
-		n++
-		switch {
-		case cs.Out == "resolves" && rerr != nil:
-			viol("canonical-long-form-rejected", map[string]string{"did": did, "error": rerr.Error()})
-		case cs.Out == "rejected" && rerr == nil:
-			viol("altered-long-form-resolves:"+cs.C.Segment+":suffix-"+cs.C.Suffix, map[string]string{"did": did})
+			n++
+			switch {
+			case cs.Out == "resolves" && rerr != nil:
+				viol("canonical-long-form-rejected", map[string]string{"did": did, "error": rerr.Error()})
+			case cs.Out == "rejected" && rerr == nil:
+				viol("altered-long-form-resolves:"+cs.C.Segment+":suffix-"+cs.C.Suffix, map[string]string{"did": did})
+			}
 		}
 	}
 	return n
